@@ -148,13 +148,14 @@ def replay_in_fresh_process(path):
 
 
 def write_evidence(prop, tier, seed, coverage, wall, violations, assumptions):
-    os.makedirs(os.path.join(ROOT, "evidence"), exist_ok=True)
+    evdir = os.environ.get("VERIF_EVIDENCE_DIR") or os.path.join(ROOT, "evidence")
+    os.makedirs(evdir, exist_ok=True)
     ev = {"property_id": prop, "tier": tier, "seed": seed, "level": "exploration", "coverage": coverage,
           "assumptions": assumptions, "wall_s": round(wall, 2), "violations": violations}
-    tmp = os.path.join(ROOT, "evidence", "%s.json.tmp" % prop)
+    tmp = os.path.join(evdir, "%s.json.tmp" % prop)
     with open(tmp, "w") as f:
         json.dump(ev, f, indent=1, sort_keys=True, default=str)
-    os.replace(tmp, os.path.join(ROOT, "evidence", "%s.json" % prop))
+    os.replace(tmp, os.path.join(evdir, "%s.json" % prop))
 
 
 ASSUMPTIONS = [
@@ -215,7 +216,8 @@ def main_check(prop, tier, seed, n_runs=None, workers=None, time_cap=None):
             by_sig.setdefault(r["violation"]["signature"], []).append(r)
         exit_code = 0
         reported = []
-        os.makedirs(os.path.join(ROOT, "replays"), exist_ok=True)
+        repdir = os.environ.get("VERIF_REPLAY_DIR") or os.path.join(ROOT, "replays")
+        os.makedirs(repdir, exist_ok=True)
         for sig, rs in sorted(by_sig.items()):
             r = rs[0]
             m = M.Minimiser(P["execute"], os.path.join(base, "min"), budget=P.get("min_budget", 250))
@@ -225,7 +227,7 @@ def main_check(prop, tier, seed, n_runs=None, workers=None, time_cap=None):
                 return 2
             spec_min, res_min = m.minimise(r["spec"], res0)
             is_known = any(k.get("signature") == sig for k in known)
-            path = os.path.join(ROOT, "replays", "%s-%d-%d%s.json" % (prop, seed, r["run"], "-known" if is_known else ""))
+            path = os.path.join(repdir, "%s-%d-%d%s.json" % (prop, seed, r["run"], "-known" if is_known else ""))
             with open(path, "w") as f:
                 json.dump({"property": prop, "engine": P["engine"], "seed": seed, "run": r["run"], "signature": sig,
                            "violation": res_min["violation"], "digest": res_min["digest"], "spec": spec_min,
